@@ -584,26 +584,26 @@ theorem dropEntity_sane_clean (s : St) (h : Sane s) (p : Nat) (ent : List Nat) :
         exact ⟨f, ⟨hf, by simp [hfe, hne]⟩, hfe⟩
       · rw [if_neg hp]; exact hs
 
+theorem step_sane_clean (s : St) (h : Sane s) (op : Op) : Sane (step Cfg.clean s op) := by
+  cases op with
+  | bind p ce cf se sf t => exact addBind_sane s h p ce cf se sf t
+  | unbind p cd ce cf se sf =>
+    have := delBind_shape Cfg.clean s p cd ce cf se sf
+    exact h.of_sublist (by simp only [step]; rw [this.2.2.1]; exact List.Sublist.refl _) this.1 this.2.2.2.2.1
+  | sub p ce cf se sf t => exact addSub_sane s h p ce cf se sf t
+  | unsub p cd ce cf se sf =>
+    have := delSub_shape Cfg.clean s p cd ce cf se sf
+    exact h.of_sublist this.1 (by simp only [step]; rw [binds_unsub]; exact List.Sublist.refl _) this.2.2.1
+  | drop p => exact h.of_sublist List.filter_sublist List.filter_sublist rfl
+  | dropEnt p ent => exact dropEntity_sane_clean s h p ent
+
 /-- repaired code, every history: every registry entry refers to an entity its peer currently announces -/
 theorem history_sane_clean (loc : List Feat) (rem : Nat → List Feat) (ops : List Op) :
     Sane (ops.foldl (step Cfg.clean) { loc := loc, rem := rem }) := by
   suffices ∀ s, Sane s → Sane (ops.foldl (step Cfg.clean) s) from this _ (sane_init loc rem)
   induction ops with
   | nil => intro s h; exact h
-  | cons op ops ih =>
-    intro s h
-    apply ih
-    cases op with
-    | bind p ce cf se sf t => exact addBind_sane s h p ce cf se sf t
-    | unbind p cd ce cf se sf =>
-      have := delBind_shape Cfg.clean s p cd ce cf se sf
-      exact h.of_sublist (by simp only [step]; rw [this.2.2.1]; exact List.Sublist.refl _) this.1 this.2.2.2.2.1
-    | sub p ce cf se sf t => exact addSub_sane s h p ce cf se sf t
-    | unsub p cd ce cf se sf =>
-      have := delSub_shape Cfg.clean s p cd ce cf se sf
-      exact h.of_sublist this.1 (by simp only [step]; rw [binds_unsub]; exact List.Sublist.refl _) this.2.2.1
-    | drop p => exact h.of_sublist List.filter_sublist List.filter_sublist rfl
-    | dropEnt p ent => exact dropEntity_sane_clean s h p ent
+  | cons op ops ih => intro s h; exact ih _ (step_sane_clean s h op)
 
 /-- repaired code: removing entity `ent` of peer `p` removes all and only the entries of that entity of that peer -/
 theorem dropEntity_exact (s : St) (p : Nat) (ent : List Nat) (hex : ((s.rem p).map (·.ent)).contains ent = true) :
